@@ -477,7 +477,32 @@ def judge_reregistered_builtin(m):
                 TRANSFORMS[k] = v
 
 
+def judge_unbound_module(m):
+    """A dotted callee whose first name is bound in NO scope is undefined, even if a module of that name could
+    be imported (numpy is bound as `np` only, json / math / statistics not at all)."""
+    import formulae
+
+    rng = np.random.default_rng(9)
+    data = pd.DataFrame({"y": rng.normal(size=6), "x": rng.uniform(1, 2, size=6)})
+    for formula in ("y ~ numpy.sqrt(x)", "y ~ math.floor(x)", "y ~ statistics.fmean(x) + x", "y ~ os.path.basename(x)",
+                    "y ~ np.numpy_never_had_this(x)"):
+        g = {"__name__": "fmon_gen_unbound", "np": np, "_dm": formulae.design_matrices, "_formula": formula, "_data": data}
+        exec("def caller():\n    return _dm(_formula, _data)", g)
+        case = {"role": "unbound-module", "formula": formula}
+        m.current_case = case
+        m.case(case, canon=["unbound-module", formula])
+        m.ev("undefined-name-raises")
+        try:
+            g["caller"]()
+            m.violation("undefined-name-raises", f"{formula!r}: the callee's first name is bound in no scope, yet the design was built",
+                        case=case, key="unbound-module-resolves")
+        except Exception:
+            pass
+
+
 def run_shard(i, n, tier, seed, m):
+    if i == 3 % n:
+        core.guarded(judge_unbound_module)(m)
     if i == 2 % n:
         core.guarded(judge_reregistered_builtin)(m)
     if i == 0:
